@@ -64,6 +64,16 @@ CHECKS['C10'] = dict(
    note='Partial: C10_total_statement is stated, not proved. get_distance values of non-integral quantities are compared only as "a value" (binary truncation of int(1000*float)). Trusted: as C07.',
    technique='Lean 4 proof over a transcription with regenerated patterns + enumerated-language correspondence',
    ref='7/C10')
+CHECKS['C11'] = dict(
+   text='Machine-checked proofs that the exact models of Tyrving (race / jump / three-piece), QuadKids, Sportshall (greatest row reached + beyond-table steps) and Bulgarian (run-length tables + clamps) scoring equal their formulas over the rationals (Mathlib floor), that the 1e-8 / 1e-6 fuzz terms can never cross an integer on the 0.01 grid for the regenerated multipliers, and kernel-decided obligations over tables regenerated from the live modules on every run: every table ordered, every key accepted by the regenerated PAT_EVENT_CODE, every row reachable. Correspondence of the real functions with the models over every table x the 0.01 grid in text, float, int and m:ss.xx forms (QuadKids, Sportshall, Bulgarian on the whole grid even in quick; Tyrving at thresholds, float-hazard marks and a stride; whole grid in thorough), cross-checked by a fractions oracle.',
+   note='Trusted: Lean kernel + Mathlib floor; axioms propext, Classical.choice, Quot.sound; tools/gen_junior.py; binary floating point observed only through the exhaustive correspondence. Known findings: Sportshall 800 m duplicated thresholds (data), QuadKids Start SLJ increment inconsistent with its end marks (data).',
+   technique='Lean 4 proof (exact evaluators = formulas) + decide +kernel over regenerated tables + exhaustive grid correspondence',
+   ref='7/C11')
+CHECKS['C05'] = dict(
+   text='Machine-checked generic monotonicity theorems over parameters: power law with any age factor (from the integer-root lemmas), Hungarian parabola in its stated range and the repaired clamped score on the whole grid, Tyrving race / jump / three-piece (under a kernel-decided join condition) and hand-timed <= electronic, QuadKids monotone and within 10..100, Sportshall and Bulgarian monotone from sortedness, Bulgarian within 0..150; obligations over regenerated tables (positive multipliers / coefficients, join condition, sortedness) kernel-decided; C05 is the conjunction over every regenerated row. The verdict on the implementation is an adjacent-pair sweep of the REAL functions over 876 tables (all systems incl. Hungarian and athlon_score with and without an age), integer-ness and bounds of every result.',
+   note='Trusted: as C11 / C01. Hungarian is tied to its model by sampled lines only. The rising Hungarian tail beyond the zero point lies outside the range the property states (reported as a note before the fix; repaired together with the negatives).',
+   technique='Lean 4 generic monotonicity proofs + decide +kernel side-conditions on regenerated tables + exhaustive adjacent-pair sweep of the implementation',
+   ref='7/C05')
 NOT_YET = {}
 def main():
     props = [json.loads(l) for l in open(os.path.join(HERE, 'properties.jsonl'))]
